@@ -46,6 +46,9 @@ def run(ctx):
     c02.r1_reader(ctx)
     c12.r2_fresh_listener(ctx, ctx.prog.func(f'{N.KERN_IMP}.KernSpineImporter.import_token'))
     ctx.alias = {}
+    # the default selection is "everything" in every call
+    shared.effect_free(ctx, 'R9', [f'{N.PUBLIC}.dumps', f'{N.MAPPER}.valid'],
+                       'the default export keeps every category: nothing an earlier call excluded may stay excluded')
     from .. import regen
     regen.check(ctx, 'R8')
 
